@@ -9,6 +9,7 @@ from ..strategies import finite
 from . import _img as I
 from . import _land as LD
 
+FUZZ = ["landscaper_history"]
 RULE = ("A history = estimator constructor arguments (any subset of start/stop fixed by the user for the landscaper; pixel size, weight and kernel "
         "for the imager) + a generated list of fit / transform / fit_transform calls on diagram collections of different extent, interpreted against "
         "the real estimator and against a model that remembers only the user-fixed parameters and the data of the most recent fit.")
